@@ -53,72 +53,80 @@ def _p1(ctx, rep):
     f = ctx.ix.func(E + "projected_linear_estimator.ProjectedLinearEstimator.calc_estimate_sequence")
     defs = single_defs(f)
     loops = [n for n in own_nodes(f.node) if isinstance(n, ast.For)]
-    if len(loops) != 1:
-        rep.undecided("P1", f, "loop", "expected one loop over the linear estimates")
+    if not loops:
+        rep.undecided("P1", f, "loop", "expected a loop over the linear estimates")
         return
-    lp = loops[0]
-    it = lp.iter
-    if isinstance(it, ast.Call) and dotted(it.func) == "enumerate":
-        it = it.args[0]
-        lv = lp.target.elts[1].id if isinstance(lp.target, ast.Tuple) else None
-    else:
-        lv = lp.target.id if isinstance(lp.target, ast.Name) else None
-    from ..reach import Reach
-    src = Reach(ctx, f).inline_at(it, lp)
-    src_ok = unparse(src).replace(" ", "").startswith("super().calc_estimate_sequence(qtomography,empi_dists_sequence") \
-        and unparse(src).endswith(".estimated_qoperation_sequence")
-    # body
-    body_defs = {}
-    for st in lp.body:
-        if isinstance(st, ast.Assign) and len(st.targets) == 1 and isinstance(st.targets[0], ast.Name):
-            body_defs[st.targets[0].id] = st.value
-    apps = [n for n in ast.walk(lp) if isinstance(n, ast.Call) and isinstance(n.func, ast.Attribute) and n.func.attr == "append"
-            and unparse(n.func.value) == "proj_estimated_var_sequence"]
-    if not apps:
-        rep.undecided("P1", f, "append", "no append to the returned sequence")
-        return
-    cfg = ctx.cfg(f)
-    for a in apps:
-        e = a.args[0]
-        ok, why = False, ""
-        # e == X.to_var() where every definition of X leads back (through local names and [0] of the (estimate, history) pair)
-        # to <linear estimate>.calc_proj_physical(...)
-        if isinstance(e, ast.Call) and isinstance(e.func, ast.Attribute) and e.func.attr == "to_var" and not e.args:
-            all_defs = {}
-            for n_ in ast.walk(lp):
-                if isinstance(n_, ast.Assign) and len(n_.targets) == 1 and isinstance(n_.targets[0], ast.Name):
-                    all_defs.setdefault(n_.targets[0].id, []).append(n_.value)
-
-            def leaves(x, seen):
-                if isinstance(x, ast.Subscript) and is_num(x.slice, 0):
-                    return leaves(x.value, seen)
-                if isinstance(x, ast.Name) and x.id in all_defs and x.id not in seen:
-                    out = []
-                    for d_ in all_defs[x.id]:
-                        out += leaves(d_, seen | {x.id})
-                    return out
-                return [x]
-            lvs = leaves(e.func.value, frozenset())
-            projs = [x for x in lvs if isinstance(x, ast.Call) and isinstance(x.func, ast.Attribute) and x.func.attr == "calc_proj_physical"
-                     and isinstance(x.func.value, ast.Name) and x.func.value.id == lv]
-            if lvs and len(projs) == len(lvs):
-                from ..astutil import deep_inline
-                setm = [n_ for n_ in ast.walk(lp) if isinstance(n_, ast.Call) and isinstance(n_.func, ast.Attribute)
-                        and n_.func.attr == "set_mode_proj_order" and isinstance(n_.func.value, ast.Name) and n_.func.value.id == lv]
-                good_set = [s_ for s_ in setm if s_.args and unparse(deep_inline(f, s_.args[0])) in ("self.mode_proj_order", "self._mode_proj_order")]
-                ok = True
-                for pe in projs:
-                    pn = cfg.node_of(pe)
-                    if not (good_set and pn is not None and any(cfg.dominates(cfg.node_of(s_), pn) for s_ in good_set)):
-                        ok = False
-                        why = "set_mode_proj_order(self.mode_proj_order) does not precede the projection on every path"
-            else:
-                why = "appended value derives from %s, not only from %s.calc_proj_physical(...)" % ([unparse(x)[:60] for x in lvs if x not in projs], lv)
+    n_checked = 0
+    for lp in loops:
+        it = lp.iter
+        if isinstance(it, ast.Call) and dotted(it.func) == "enumerate":
+            it = it.args[0]
+            lv = lp.target.elts[1].id if isinstance(lp.target, ast.Tuple) else None
         else:
-            why = "appended value %s is not <projection>.to_var()" % unparse(e)
-        if ok and not src_ok:
-            ok, why = False, "the projected objects are not the linear estimator's estimates (loop source %s)" % unparse(src)[:120]
-        rep.check(ok, "P1", f, a, "to_var(calc_proj_physical(linear estimate)) in the configured order", why, node=a)
+            lv = lp.target.id if isinstance(lp.target, ast.Name) else None
+        from ..reach import Reach
+        src = Reach(ctx, f).inline_at(it, lp)
+        src_ok = unparse(src).replace(" ", "").startswith("super().calc_estimate_sequence(qtomography,empi_dists_sequence") \
+            and unparse(src).endswith(".estimated_qoperation_sequence")
+        # body
+        body_defs = {}
+        for st in lp.body:
+            if isinstance(st, ast.Assign) and len(st.targets) == 1 and isinstance(st.targets[0], ast.Name):
+                body_defs[st.targets[0].id] = st.value
+        apps = [n for n in ast.walk(lp) if isinstance(n, ast.Call) and isinstance(n.func, ast.Attribute) and n.func.attr == "append"
+                and unparse(n.func.value) == "proj_estimated_var_sequence"]
+        if not apps:
+            continue
+        n_checked += 1
+        cfg = ctx.cfg(f)
+        for a in apps:
+            e = a.args[0]
+            ok, why = False, ""
+            # e == X.to_var() where every definition of X leads back (through local names and [0] of the (estimate, history) pair)
+            # to <linear estimate>.calc_proj_physical(...)
+            if isinstance(e, ast.Call) and isinstance(e.func, ast.Attribute) and e.func.attr == "to_var" and not e.args:
+                all_defs = {}
+                for n_ in ast.walk(lp):
+                    if isinstance(n_, ast.Assign) and len(n_.targets) == 1 and isinstance(n_.targets[0], ast.Name):
+                        all_defs.setdefault(n_.targets[0].id, []).append(n_.value)
+                    elif isinstance(n_, ast.Assign) and len(n_.targets) == 1 and isinstance(n_.targets[0], ast.Tuple) \
+                            and all(isinstance(x_, ast.Name) for x_ in n_.targets[0].elts) and not isinstance(n_.value, ast.Tuple):
+                        # (estimate, history) = <pair>: the first name holds element 0
+                        for i_, x_ in enumerate(n_.targets[0].elts):
+                            all_defs.setdefault(x_.id, []).append(ast.Subscript(value=n_.value, slice=ast.Constant(value=i_), ctx=ast.Load()))
+
+                def leaves(x, seen):
+                    if isinstance(x, ast.Subscript) and is_num(x.slice, 0):
+                        return leaves(x.value, seen)
+                    if isinstance(x, ast.Name) and x.id in all_defs and x.id not in seen:
+                        out = []
+                        for d_ in all_defs[x.id]:
+                            out += leaves(d_, seen | {x.id})
+                        return out
+                    return [x]
+                lvs = leaves(e.func.value, frozenset())
+                projs = [x for x in lvs if isinstance(x, ast.Call) and isinstance(x.func, ast.Attribute) and x.func.attr == "calc_proj_physical"
+                         and isinstance(x.func.value, ast.Name) and x.func.value.id == lv]
+                if lvs and len(projs) == len(lvs):
+                    from ..astutil import deep_inline
+                    setm = [n_ for n_ in ast.walk(lp) if isinstance(n_, ast.Call) and isinstance(n_.func, ast.Attribute)
+                            and n_.func.attr == "set_mode_proj_order" and isinstance(n_.func.value, ast.Name) and n_.func.value.id == lv]
+                    good_set = [s_ for s_ in setm if s_.args and unparse(deep_inline(f, s_.args[0])) in ("self.mode_proj_order", "self._mode_proj_order")]
+                    ok = True
+                    for pe in projs:
+                        pn = cfg.node_of(pe)
+                        if not (good_set and pn is not None and any(cfg.dominates(cfg.node_of(s_), pn) for s_ in good_set)):
+                            ok = False
+                            why = "set_mode_proj_order(self.mode_proj_order) does not precede the projection on every path"
+                else:
+                    why = "appended value derives from %s, not only from %s.calc_proj_physical(...)" % ([unparse(x)[:60] for x in lvs if x not in projs], lv)
+            else:
+                why = "appended value %s is not <projection>.to_var()" % unparse(e)
+            if ok and not src_ok:
+                ok, why = False, "the projected objects are not the linear estimator's estimates (loop source %s)" % unparse(src)[:120]
+            rep.check(ok, "P1", f, a, "to_var(calc_proj_physical(linear estimate)) in the configured order", why, node=a)
+    if not n_checked:
+        rep.undecided("P1", f, "append", "no loop appends to the returned sequence")
     res = [n for n in own_nodes(f.node) if isinstance(n, ast.Call) and unparse(n.func) == "ProjectedLinearEstimationResult"]
     ok = len(res) == 1 and res[0].args and unparse(res[0].args[0]) == "proj_estimated_var_sequence"
     rep.check(ok, "P1", f, res[0] if res else "result", "result carries the projected sequence", "result is not built from the projected sequence",
